@@ -57,9 +57,11 @@ def budgets_for(case: OptCase, chosen_n2):
         cmax = max(abs(C.frac(c)) for c in case.costs.tolist())
     out = []
     rho_min = None
+    # a single-precision basis matrix is eliminated in single precision (norms accurate to eps32); the costs are always float64
+    rel_norm = BUDGET_REL * (Fraction(2) ** 29 if case.meta.get("dtype") == "float32" else 1)
     for n2 in chosen_n2:
         amp = Fraction(1) if rho_min is None else max(Fraction(1), sc / rho_min)
-        out.append(BUDGET_REL * max(sc * amp, cmax))
+        out.append(max(rel_norm * sc * amp, BUDGET_REL * cmax))
         if n2 is not None and n2 > 0:
             r = _sqrt_lower(n2)
             if r > 0 and (rho_min is None or r < rho_min):
